@@ -14,7 +14,7 @@ mcvars == <<pc, cfg, cur, pos, lastn, calls, trunc, ver>>
 
 SortedSubLists(n) == {s \in UNION {[1..k -> 0..(n - 1)] : k \in 1..n} : \A i \in 1..(Len(s) - 1) : s[i] < s[i + 1]}
 PermsOf(n) == {p \in [1..n -> 0..(n - 1)] : \A i, j \in 1..n : i # j => p[i] # p[j]}
-Cfgs == UNION {{[N |-> n, dimorder |-> d, optdims |-> o, maxiters |-> mi] :
+Cfgs == UNION {{[N |-> n, dimorder |-> d, optdims |-> o, maxiters |-> mi, generic |-> TRUE] :
                  d \in PermsOf(n), o \in SortedSubLists(n), mi \in 1..MaxIt} : n \in 2..NMax}
 
 Ids(v, n) == [m \in 1..n |-> m * 100 + v[m]]
@@ -46,6 +46,7 @@ NonOptFixed == pc # "idle" => \A m \in 0..(cfg.N - 1) :
 SweepFair == (pc # "idle" /\ pos % Len(Eff(cfg)) = 0) =>
                \A j \in 1..Len(Eff(cfg)) : ver[Eff(cfg)[j] + 1] = pos \div Len(Eff(cfg))
 \* with Jacobi = TRUE this must be violated (the specification detects a stale factor)
-JacobiRefused == ~(Jacobi /\ pc = "running" /\ pos >= 2)
+\* (two or more optimised modes: with a single one the "stale" factor is the updated mode's own, which no update reads)
+JacobiRefused == ~(Jacobi /\ pc = "running" /\ Len(Eff(cfg)) >= 2 /\ pos >= 2)
 
 =============================================================================
